@@ -4,6 +4,7 @@ CONSTANTS
   MaxFaults = 0
   MaxRogue = 1
   FixUnknown = FALSE
+  CtxWriteCloses = FALSE
 SPECIFICATION Spec
 INVARIANTS NeverCrashes
 
